@@ -47,6 +47,9 @@ CLAIMED = {
  "C08": ("explicit TLA+ decision-table specification (RenameGate.tla), TLC exhaustive enumeration with per-action coverage, spec->impl replay at the ide API and black-box over LSP",
          "TLC enumerates the whole RenameGate decision table (101 symbol occurrences of 18 kinds x 3 package localities x 157 candidate names of 39 lexical classes, names defined character by character) and checks PrepareAccept <=> exists valid name: RenameAccept, no edit outside local packages and sufficiency of each refusal reason on every state; every row is replayed into ide::Analysis::prepare_rename and rename on a workspace with a local, a path-dependency and a build/packages package and compared with the predicted answer, edit locality, whole-token edits and prepare/rename agreement; 10 rows run through the real server over LSP.",
          "exhaustive over the finite table; the table is a fixed family of sources (one definition and >= 1 use per kind and spelling), not all programs; acceptance is predicted only for occurrences glas supports, elsewhere only the refusal obligations and prepare/rename agreement are checked", "4 C08, 3.10"),
+ "C03": ("TLA+ specification of admissible damage (Recovery.tla): TLC checks the property's precondition on every reachable state and enumerates every (file, victim, edit); each damaged file replayed into the real parser",
+         "TLC enumerates all ordered pairs of 12 definition templates x every victim with a brace-delimited body x every single edit (insert/delete/replace at every position strictly inside the outermost braces with every non-opening lexeme) and seeded two-edit damages in files of three definitions, checking on the model that braces stay balanced and no opener is introduced; the real parser must recognise every other definition with the same kind, name and text in the same order and report every syntax error inside the victim's span.",
+         "victims are definitions with a brace-delimited body; opening delimiters excluded from the damage alphabet are ( [ { << # and the string/comment openers (DESIGN 4 C03)", "4 C03, 3.5"),
 }
 NOT_YET = "check not built yet in this revision of /verif (work in progress; see DESIGN.md section 8)"
 
